@@ -70,10 +70,7 @@ func (u *Updater) AddInputs(inputs []InputArgs) error {
 		}
 	}
 
-	u.Pset.Global = p.Global
-	u.Pset.Inputs = p.Inputs
-	u.Pset.Outputs = p.Outputs
-	return u.Pset.SanityCheck()
+	return u.Pset.publish(p)
 }
 
 // AddOutput adds the provided outputs to the Pset
@@ -92,10 +89,7 @@ func (u *Updater) AddOutputs(outputs []OutputArgs) error {
 		}
 	}
 
-	u.Pset.Global = p.Global
-	u.Pset.Inputs = p.Inputs
-	u.Pset.Outputs = p.Outputs
-	return u.Pset.SanityCheck()
+	return u.Pset.publish(p)
 }
 
 // AddInNonWitnessUtxo adds the utxo information for an input which is
@@ -426,10 +420,7 @@ func (u *Updater) AddInIssuance(inputIndex int, arg AddInIssuanceArgs) error {
 		}
 	}
 
-	u.Pset.Global = p.Global
-	u.Pset.Inputs = p.Inputs
-	u.Pset.Outputs = p.Outputs
-	return u.Pset.SanityCheck()
+	return u.Pset.publish(p)
 }
 
 // AddInReissuanceArgs defines the mandatory fields that one needs to pass to
@@ -568,10 +559,7 @@ func (u *Updater) AddInReissuance(inputIndex int, arg AddInReissuanceArgs) error
 	p.Inputs[inputIndex].IssuanceValue = arg.AssetAmount
 	p.Inputs[inputIndex].IssuanceBlindingNonce = arg.TokenPrevOutBlinder
 
-	u.Pset.Global = p.Global
-	u.Pset.Inputs = p.Inputs
-	u.Pset.Outputs = p.Outputs
-	return u.Pset.SanityCheck()
+	return u.Pset.publish(p)
 }
 
 // AddInTapInternalKey adds a taproot internal key to the input at index inIndex.
@@ -626,10 +614,7 @@ func (u *Updater) AddInTapLeafScript(inIndex int, tapLeafScript TapLeafScript) e
 
 	p.Inputs[inIndex].TapLeafScript = append(p.Inputs[inIndex].TapLeafScript, tapLeafScript)
 
-	u.Pset.Global = p.Global
-	u.Pset.Inputs = p.Inputs
-	u.Pset.Outputs = p.Outputs
-	return u.Pset.SanityCheck()
+	return u.Pset.publish(p)
 }
 
 // AddInTapBip32Derivation adds TapBip32Derivation to the input at index inIndex.
@@ -645,10 +630,7 @@ func (u *Updater) AddInTapBip32Derivation(inIndex int, tapBip32Derivation TapDer
 
 	p.Inputs[inIndex].TapBip32Derivation = append(p.Inputs[inIndex].TapBip32Derivation, tapBip32Derivation)
 
-	u.Pset.Global = p.Global
-	u.Pset.Inputs = p.Inputs
-	u.Pset.Outputs = p.Outputs
-	return u.Pset.SanityCheck()
+	return u.Pset.publish(p)
 }
 
 // AddOutBip32Derivation takes a master key fingerprint as defined in BIP32, a
